@@ -332,6 +332,7 @@ func genScenario(r *Rng, pf pipeProfile) PScn {
 		}
 		if r.Chance(30) {
 			p.Extra = append(p.Extra, "zdoc.go") // part of the package-level tags stands in a second file's package comment
+			p.Conflict = r.Bool()                // … and the first file may say something else about the same key
 		}
 		if pf.inOutput && r.Chance(30) {
 			// a package-level type declared in a file named like the output of one of the generators (what a generator that
@@ -423,7 +424,7 @@ func pipeStream(name string, quick, thorough int, clauses string, pf pipeProfile
 	}
 }
 
-const pipeRuleCommon = "synthetic modules of 1–4 packages (directories and types declared in descending order), defined scalar/struct/generic/interface types, aliases, tags at global / package-doc (in a third of the packages spread over the package comments of two files) / declaration level from a menu incl. repeated keys and names that are prefixes of one another, 1–4 recording generators named rec, recx, rec2 and proto (with/without alias hook, reflect.New or custom New, a call counter and a helper-once flag rendered into the output) with scripted reactions per (generator, package, type); real NewContext/Execute in fresh child processes; "
+const pipeRuleCommon = "synthetic modules of 1–4 packages (directories and types declared in descending order), defined scalar/struct/generic/interface types, aliases, tags at global / package-doc (in a third of the packages spread over the package comments of two files, which in half of those say different things about one key: the file later in name order wins) / declaration level from a menu incl. repeated keys and names that are prefixes of one another, 1–4 recording generators named rec, recx, rec2 and proto (with/without alias hook, reflect.New or custom New, a call counter and a helper-once flag rendered into the output) with scripted reactions per (generator, package, type); real NewContext/Execute in fresh child processes; "
 
 func init() {
 	register(&Property{ID: "C06", Streams: []*Stream{
